@@ -97,7 +97,11 @@ class SchedPool:
     """multiprocessing.Pool look-alike"""
 
     def __init__(self, processes=None, *a, **k):
-        # look like a real pool to code that asks for its size
+        # look like a real pool to code that asks for its size - and refuse the sizes a real pool refuses
+        if processes is None:
+            processes = k.get("nodes", k.get("ncpus"))      # pathos spelling
+        if processes is not None and processes < 1:
+            raise ValueError("Number of processes must be at least 1")
         self._processes = processes or (os.cpu_count() or 1)
 
     def __enter__(self):
